@@ -7,6 +7,7 @@ import (
 	"fmt"
 	"sort"
 	"strings"
+	"time"
 
 	"pgregory.net/rapid"
 )
@@ -67,8 +68,8 @@ func drawFields(rt *rapid.T, kind, prefix string, names ...string) fields {
 
 func keyBytes(seed uint64, n int) []byte { return payloadFor(seed^0xA5A5, n) }
 
-var natAlts2022 = []any{"60s", "1m0s", "61s", "1m1s", "3m0s", "1m0.000000001s"}
-var natAltsOther = []any{"1s", "2s", "17s", "59s", "5m0s"}
+var natAlts2022 = []any{"60s", "1m0s", "61s", "1m1s", "3m0s", "1m0.000000001s", "24h0m0s"}
+var natAltsOther = []any{"1s", "2s", "17s", "59s", "5m0s", "24h0m0s"}
 
 func genWorld(rt *rapid.T) *world {
 	w := &world{files: map[string]string{}}
@@ -209,6 +210,21 @@ func genWorld(rt *rapid.T) *world {
 		c.mtu = intp(rapid.SampledFrom([]int{1500, 1280, 9000}).Draw(rt, c.name+".mtu"))
 		w.clients = append(w.clients, c)
 		directNames = append(directNames, c.name)
+	}
+	// half-enabled direct clients: they exist for one network only and may be named only by
+	// references that cover just that network
+	if !implicit {
+		half := rapid.IntRange(0, 3).Draw(rt, "halfClients")
+		if half&1 != 0 {
+			c := &cli{name: "dt", proto: "direct", tcp: true, toServer: -1}
+			c.f = drawFields(rt, "client", c.name, "network", "tcpPathMTUDiscovery", "dialerTFO", "tcpFastOpenFallback")
+			w.clients = append(w.clients, c)
+		}
+		if half&2 != 0 {
+			c := &cli{name: "du", proto: "direct", udp: true, toServer: -1, mtu: intp(1500)}
+			c.f = drawFields(rt, "client", c.name, "network", "udpPathMTUDiscovery")
+			w.clients = append(w.clients, c)
+		}
 	}
 	isDirect := func(n string) bool {
 		for _, d := range directNames {
@@ -604,6 +620,29 @@ func (w *world) mutations(rt *rapid.T) []mutation {
 			add("range", "sendCap-63", func() { l.f["sendChannelCapacity"] = &dfield{Mode: mValue, Val: 63} })
 			add("range", "sendCap-1", func() { l.f["sendChannelCapacity"] = &dfield{Mode: mValue, Val: 1} })
 		}
+		for _, l := range s.tcp {
+			if _, ok := l.f["initialPayloadWaitBufferSize"]; ok || !s.legacyOK {
+				for _, v := range []int{-1, -1440} {
+					add("range", fmt.Sprintf("ipw-buf-%d", v), func() { l.f["initialPayloadWaitBufferSize"] = &dfield{Mode: mValue, Val: v} })
+				}
+				for _, v := range []string{"-1ns", "-250ms"} {
+					add("range", "ipw-timeout-"+v, func() { l.f["initialPayloadWaitTimeout"] = &dfield{Mode: mValue, Val: v} })
+				}
+			}
+		}
+		if !s.is2022() {
+			for _, l := range s.udp {
+				add("range", "nat-negative", func() { l.f["natTimeout"] = &dfield{Mode: mValue, Val: "-1s"} })
+			}
+		} else {
+			add("range", "server-sliding-window--1", func() { s.f["slidingWindowFilterSize"] = &dfield{Mode: mValue, Val: -1} })
+			for _, l := range s.udp {
+				add("nat-timeout", "nat--1s", func() { l.f["natTimeout"] = &dfield{Mode: mValue, Val: "-1s"} })
+			}
+		}
+		if len(s.udp) > 0 {
+			add("mtu", "server-mtu--1", func() { s.mtu = intp(-1) })
+		}
 		add("duplicate", "dup-server", func() {
 			c := *s
 			c.tcp, c.udp = nil, nil
@@ -634,6 +673,65 @@ func (w *world) mutations(rt *rapid.T) []mutation {
 				add("mtu", "client-mtu-omitted", func() { c.mtu = nil })
 			}
 			add("duplicate", "dup-client", func() { d := *c; w.clients = append(w.clients, &d) })
+		}
+	}
+	// a reference that covers a network for which the named client does not exist
+	if w.clientsMode == 0 {
+		half := func(udpOnly bool) string {
+			name := "ht"
+			if udpOnly {
+				name = "hu"
+			}
+			if w.client(name) == nil {
+				c := &cli{name: name, proto: "direct", tcp: !udpOnly, udp: udpOnly, toServer: -1, f: fields{}}
+				if udpOnly {
+					c.mtu = intp(1500)
+				}
+				// groups and everything else are defined after the clients section, order is irrelevant
+				w.clients = append(w.clients, c)
+			}
+			return name
+		}
+		for _, r := range w.routes {
+			switch r.network {
+			case "":
+				add("dangling", "route-anynet-client-tcponly", func() { r.client = half(false) })
+				add("dangling", "route-anynet-client-udponly", func() { r.client = half(true) })
+			case "udp":
+				add("dangling", "route-udp-client-tcponly", func() { r.client = half(false) })
+			case "tcp":
+				add("dangling", "route-tcp-client-udponly", func() { r.client = half(true) })
+			}
+		}
+		if w.defUDP != nil {
+			add("dangling", "default-udp-client-tcponly", func() { w.defUDP = strp(half(false)) })
+		}
+		if w.defTCP != nil {
+			add("dangling", "default-tcp-client-udponly", func() { w.defTCP = strp(half(true)) })
+		}
+		for _, r := range w.dns {
+			if r.udpC != "" {
+				add("dangling", "resolver-udp-client-tcponly", func() { r.udpC = half(false) })
+			}
+			if r.tcpC != "" {
+				add("dangling", "resolver-tcp-client-udponly", func() { r.tcpC = half(true) })
+			}
+		}
+		for _, g := range w.groups {
+			if g.udp != nil {
+				add("dangling", "group-udp-member-tcponly", func() { g.udp.clients = append([]string{half(false)}, g.udp.clients...) })
+			}
+			if g.tcp != nil {
+				add("dangling", "group-tcp-member-udponly", func() { g.tcp.clients = append([]string{half(true)}, g.tcp.clients...) })
+			}
+		}
+		for _, c := range w.clients {
+			if keyLen(c.proto) > 0 && c.udp {
+				add("range", "client-sliding-window--1", func() { c.f["slidingWindowFilterSize"] = &dfield{Mode: mValue, Val: -1} })
+			}
+			if c.udp {
+				add("mtu", "client-mtu--1", func() { c.mtu = intp(-1) })
+			}
 		}
 	}
 	for _, g := range w.groups {
@@ -765,7 +863,7 @@ func (w *world) probes(seed uint64) []Probe {
 	n := uint64(0)
 	next := func() uint64 { n++; return seed + n }
 	for _, s := range w.servers {
-		for _, l := range s.tcp {
+		for li, l := range s.tcp {
 			p := Probe{Server: s.name, Addr: l.addr(), Target: w.target, Seed: next(), Size: 1 + int(next()%1200), User: s.authUser, Pass: s.authPass,
 				ExpectEcho: w.pathOK(s.upTCP, false, 0)}
 			switch {
@@ -785,6 +883,19 @@ func (w *world) probes(seed uint64) []Probe {
 				p.ExpectRST = (rp == nil || rp.Mode != mValue) && (fb == nil || fb.Mode != mValue)
 			}
 			ps = append(ps, p)
+			if li == 0 && p.Kind != "reject" {
+				// the same listener again, payload-less: the relay's wait for an initial payload runs
+				// into its timeout; where the protocol names the target, the target speaks first
+				q := p
+				q.Seed, q.Silent = next(), true
+				if p.Kind == "tcp-tunnel" {
+					q.SilentMs = 100 + min(silentWaitMs(l), 300)
+				} else {
+					q.Greet = true
+					q.Target = strings.Replace(w.target, "@@ECHO@@", "@@GREET@@", 1)
+				}
+				ps = append(ps, q)
+			}
 		}
 		for _, l := range s.udp {
 			p := Probe{Server: s.name, Addr: l.addr(), Target: w.target, Seed: next(), Size: 1 + int(next()%900),
@@ -832,6 +943,22 @@ func (w *world) listenList() []string {
 // plan builds the plan for one representation of the world.
 func (w *world) plan(name, cfgText string, seed uint64) *Plan {
 	return &Plan{Name: name, Config: cfgText, Files: w.files, Ports: w.nports, Listen: w.listenList(), Probes: w.probes(seed)}
+}
+
+// silentWaitMs is the documented time the listener waits for an initial payload.
+func silentWaitMs(l *lst) int {
+	if d, ok := l.f["disableInitialPayloadWait"]; ok && d.Mode == mValue {
+		return 0
+	}
+	v := "250ms"
+	if _, ok := l.f["initialPayloadWaitTimeout"]; ok {
+		v = l.f.effective("tcpl", "initialPayloadWaitTimeout").(string)
+	}
+	d, err := time.ParseDuration(v)
+	if err != nil || d < 0 {
+		return 0
+	}
+	return int(d / time.Millisecond)
 }
 
 // classKey describes the configuration class of a world for the distinct count.
